@@ -18,7 +18,7 @@ RULE = ("A: ALL (version, length) pairs in 0..17 x 0..42 (774, exhaustive) x HRP
         "<= 4 decided offline by set intersections (2 388 085 weight-2 syndromes); D: random <=4-symbol substitutions and an "
         "insert/delete/case/charset grammar through the real decoder, differential against the reference decoder; distinct = "
         "distinct (monitor, case) digests"
-        " EXTENSIONS: + foreign printable characters at every position (B3), characters outside 33..126 affixed / after the separator / before the checksum (B4), prefixes related to the expected one, caller edits of returned lists, full (version x length x constant) grid, foreign character x compensating neighbour grid (B5), addresses without a cased character (letter-free prefix, digit-only symbols), request histories")
+        " EXTENSIONS: + foreign printable characters at every position (B3), characters outside 33..126 affixed / after the separator / before the checksum (B4), prefixes related to the expected one, caller edits of returned lists, full (version x length x constant) grid, foreign character x compensating neighbour grid (B5), addresses without a cased character (letter-free prefix, digit-only symbols), request histories, prefixes handed over as fresh (non-literal) strings")
 LEVEL_TEXT = ("Codec agreement is exhaustive over (version, length); rejection clauses are exercised by construction; the "
               "error-detection clause is decided for EVERY error pattern of weight <= 4 (both constants and the cross-constant "
               "case) from syndromes computed by the real bech32_polymod, exhaustive given the checksum's affine-linearity, which "
@@ -49,6 +49,9 @@ def rand_hrp(rnd):
 def judge_A(ctx, case):
     import btc_hd_wallet.bech32 as b
     hrp, v, prog = case["hrp"], case["witver"], case["prog"]
+    if case.get("aslist"):
+        from ..core import fresh_str
+        hrp = fresh_str(hrp)            # (equal to, not identical with, the literal 'bc' / 'tb' the library may hold)
     want = rbech.segwit_encode(hrp, v, prog)
     try:
         got, err = b.encode(hrp, v, list(prog) if case.get("aslist") else prog), None
@@ -349,6 +352,9 @@ def judge_D_diff(ctx, case):
     import btc_hd_wallet.bech32 as b
     import btc_hd_wallet.helper as h
     hrp, t = case["hrp"], case["s"]
+    if len(t) & 1:
+        from ..core import fresh_str
+        hrp = fresh_str(hrp)
     ref = rbech.segwit_decode(hrp, t)
     try:
         got = b.decode(hrp, t)
